@@ -295,6 +295,7 @@ type Fingerprint struct {
 	Canon  string // id-independent: multiset of node signatures (type, properties, ordered parent signatures)
 	Nodes  int
 	Kinds  []string
+	Mutated string // non-empty: json.Marshal(pipeline) changed the pipeline's own nodes (first difference of the dumps)
 }
 
 func safeJSON(p *pipeline.Pipeline) (s string) {
@@ -318,10 +319,8 @@ func names(ns []pipeline.Node) string {
 	return "[" + strings.Join(s, " ") + "]"
 }
 
-func fingerprint(p *pipeline.Pipeline) Fingerprint {
-	var fp Fingerprint
+func fingerprint(p *pipeline.Pipeline) (fp Fingerprint) {
 	var sb strings.Builder
-	sb.WriteString("DOT:\n" + string(p.Dot("t")) + "\nJSON:\n" + safeJSON(p) + "\nNODES:\n")
 	var nodes []pipeline.Node
 	_ = p.Walk(func(n pipeline.Node) error {
 		nodes = append(nodes, n)
@@ -331,16 +330,49 @@ func fingerprint(p *pipeline.Pipeline) Fingerprint {
 	for _, n := range nodes {
 		isNode[n] = true
 	}
+	// canonical form. Parents()/Children() hand out pointers to the embedded base struct of a node
+	// (linkChild is a method of the embedded `node`): they are mapped back to the full nodes.
+	full := map[uintptr]pipeline.Node{}
 	for _, n := range nodes {
-		sb.WriteString(fmt.Sprintf("%s id=%d desc=%s parents=%s children=%s :: ", n.Name(), n.ID(), n.Desc(), names(n.Parents()), names(n.Children())))
-		sb.WriteString(nodeProps(n, func(o pipeline.Node) (string, bool) { return o.Name(), isNode[o] }))
-		sb.WriteString("\n")
+		if a := baseAddr(n); a != 0 {
+			full[a] = n
+		}
+	}
+	resolve := func(q pipeline.Node) pipeline.Node {
+		if isNode[q] {
+			return q
+		}
+		v := reflect.ValueOf(q)
+		if v.Kind() == reflect.Ptr {
+			if n, ok := full[v.Pointer()]; ok {
+				return n
+			}
+		}
+		return q
+	}
+	dump := func() string {
+		var db strings.Builder
+		for _, n := range nodes {
+			db.WriteString(fmt.Sprintf("%s id=%d desc=%s parents=%s children=%s :: ", n.Name(), n.ID(), n.Desc(), names(n.Parents()), names(n.Children())))
+			db.WriteString(nodeProps(n, func(o pipeline.Node) (string, bool) { o = resolve(o); return o.Name(), isNode[o] }))
+			db.WriteString("\n")
+		}
+		return db.String()
+	}
+	for _, n := range nodes {
 		fp.Kinds = append(fp.Kinds, n.Desc())
 	}
-	fp.Strict = sb.String()
+	// the dump is taken before the pipeline is marshalled: MarshalJSON is not free of side effects
+	before := dump()
 	fp.Nodes = len(nodes)
+	defer func() {
+		sb.WriteString("DOT:\n" + string(p.Dot("t")) + "\nJSON:\n" + safeJSON(p) + "\nNODES:\n" + before)
+		fp.Strict = sb.String()
+		if after := dump(); after != before {
+			fp.Mutated = firstDiff(before, after)
+		}
+	}()
 
-	// canonical form
 	sig := map[pipeline.Node]string{}
 	var sigOf func(n pipeline.Node) string
 	busy := map[pipeline.Node]bool{}
@@ -354,9 +386,13 @@ func fingerprint(p *pipeline.Pipeline) Fingerprint {
 		busy[n] = true
 		var ps []string
 		for _, q := range n.Parents() {
-			ps = append(ps, short(sigOf(q)))
+			ps = append(ps, short(sigOf(resolve(q))))
+		}
+		if _, ok := n.(*pipeline.UnionNode); ok {
+			sort.Strings(ps) // a union is a pass-through of all its parents: their order carries no meaning
 		}
 		s := nodeProps(n, func(o pipeline.Node) (string, bool) {
+			o = resolve(o)
 			if !isNode[o] {
 				return "", false
 			}
@@ -482,4 +518,33 @@ func fieldDiff(x, y string) string {
 		hy = len(y)
 	}
 	return fmt.Sprintf("at %d: …%s… vs …%s…", i, x[lo:hx], y[lo:hy])
+}
+
+// baseAddr is the address of the `node` struct embedded (possibly through chainnode / AlertNodeData) in a pipeline node.
+func baseAddr(n pipeline.Node) uintptr {
+	var find func(v reflect.Value, depth int) uintptr
+	find = func(v reflect.Value, depth int) uintptr {
+		for v.Kind() == reflect.Ptr || v.Kind() == reflect.Interface {
+			if v.IsNil() {
+				return 0
+			}
+			v = v.Elem()
+		}
+		if v.Kind() != reflect.Struct || depth > 4 {
+			return 0
+		}
+		t := v.Type()
+		if t.Name() == "node" && t.PkgPath() == "github.com/influxdata/kapacitor/pipeline" && v.CanAddr() {
+			return v.UnsafeAddr()
+		}
+		for i := 0; i < t.NumField(); i++ {
+			if t.Field(i).Anonymous {
+				if a := find(v.Field(i), depth+1); a != 0 {
+					return a
+				}
+			}
+		}
+		return 0
+	}
+	return find(reflect.ValueOf(n), 0)
 }
